@@ -168,6 +168,23 @@ fn child_main() {
                 "logical" => return match ctx.logical_plan(&sql) { Ok(_) => json!({"outcome":"ok","kind":"ok","detail":"bound"}), Err(e) => json!({"outcome":"err","kind":err_kind(&e),"detail":cut(&e.to_string(), 160)}) },
                 "optimized" => return match ctx.optimized_plan(&sql) { Ok(_) => json!({"outcome":"ok","kind":"ok","detail":"optimized"}), Err(e) => json!({"outcome":"err","kind":err_kind(&e),"detail":cut(&e.to_string(), 160)}) },
                 "physical" => return match ctx.physical_plan(&sql) { Ok(_) => json!({"outcome":"ok","kind":"ok","detail":"planned"}), Err(e) => json!({"outcome":"err","kind":err_kind(&e),"detail":cut(&e.to_string(), 160)}) },
+                "schema" => {
+                    // family C30, raw stream: the four views of the result schema
+                    let sj = |s: &Schema| Value::Array(s.fields().iter().map(|f| json!([f.name(), format!("{}", f.data_type())])).collect());
+                    let plan = match ctx.physical_plan(&sql) { Ok(p) => sj(&p.schema()), Err(e) => json!({"err": cut(&e.to_string(), 160)}) };
+                    return match rt.block_on(async { ctx.sql(&sql).await }) {
+                        Ok(q) => {
+                            let mut bs: Vec<Value> = vec![]; let mut arrs: Vec<Value> = vec![];
+                            for b in &q.batches {
+                                let s = sj(&b.schema()); if !bs.contains(&s) { bs.push(s); }
+                                let a = Value::Array(b.columns().iter().map(|c| json!(format!("{}", c.data_type()))).collect()); if !arrs.contains(&a) { arrs.push(a); }
+                            }
+                            json!({"outcome":"ok","status":"ok","result":sj(&q.schema),"plan":plan,"batches":bs,"arrays":arrs,"nbatches":q.batches.len(),
+                                   "rows": q.batches.iter().map(|b| b.num_rows()).sum::<usize>()})
+                        }
+                        Err(e) => json!({"outcome":"err","status":"err","msg":cut(&e.to_string(), 160),"plan":plan}),
+                    };
+                }
                 _ => {}
             }
             let r = rt.block_on(async { ctx.sql(&sql).await });
@@ -245,11 +262,11 @@ fn cpu_ms(pid: u32) -> u64 {
     (f[11].parse::<u64>().unwrap_or(0) + f[12].parse::<u64>().unwrap_or(0)) * 10
 }
 
-struct Pool { kid: Option<Kid>, limit: Duration, pub spawned: usize }
+pub struct Pool { kid: Option<Kid>, limit: Duration, pub spawned: usize }
 
 impl Pool {
-    fn new(limit_ms: u64) -> Pool { Pool { kid: None, limit: Duration::from_millis(limit_ms), spawned: 0 } }
-    fn kill(&mut self) { if let Some(mut k) = self.kid.take() { let _ = k.proc.kill(); let _ = k.proc.wait(); let _ = std::fs::remove_dir_all(&k.tmp); } }
+    pub fn new(limit_ms: u64) -> Pool { Pool { kid: None, limit: Duration::from_millis(limit_ms), spawned: 0 } }
+    pub fn kill(&mut self) { if let Some(mut k) = self.kid.take() { let _ = k.proc.kill(); let _ = k.proc.wait(); let _ = std::fs::remove_dir_all(&k.tmp); } }
     /// Run one statement in the current child (spawning one if needed). Returns (impl, child_survived).
     fn run(&mut self, setup: &str, sql: &str) -> (Value, bool) { self.run_phase(setup, sql, "sql") }
     /// first phase (parse / logical / optimized / physical / execute) in which the statement ends the same way
@@ -265,7 +282,7 @@ impl Pool {
         self.limit = saved;
         found
     }
-    fn run_phase(&mut self, setup: &str, sql: &str, phase: &str) -> (Value, bool) {
+    pub fn run_phase(&mut self, setup: &str, sql: &str, phase: &str) -> (Value, bool) {
         if self.kid.is_none() { self.kid = Some(spawn_kid()); self.spawned += 1; }
         let line = json!({"setup": setup, "sql": sql, "phase": phase}).to_string();
         let t0 = Instant::now();
@@ -614,9 +631,74 @@ impl<'a> G<'a> {
     }
 }
 
+/// "tame" statements: the supported core of the dialect only (type-blind but mostly bindable), used where executed statements
+/// are wanted rather than error paths (family C30's raw stream, and as mutation seeds)
+pub fn gen_tame(r: &mut Rng) -> String {
+    fn col(r: &mut Rng, t: &Tab, alias: &str) -> String { format!("{}.{}", alias, t.cols[r.below(t.cols.len() as u64) as usize].0) }
+    fn expr(r: &mut Rng, sc: &[(&'static Tab, String)], d: u32) -> String {
+        let pick_col = |r: &mut Rng| { let (t, a) = &sc[r.below(sc.len() as u64) as usize]; col(r, t, a) };
+        if d == 0 { return if r.chance(2, 3) { pick_col(r) } else { ["1","2","0","1.5","'a'","'abc'","TRUE","NULL","DATE '2024-01-31'"][r.below(9) as usize].to_string() }; }
+        match r.below(16) {
+            0..=3 => pick_col(r),
+            4 | 5 => format!("({} {} {})", expr(r, sc, d - 1), ["+","-","*","/","%"][r.below(5) as usize], expr(r, sc, d - 1)),
+            6 | 7 => format!("({} {} {})", expr(r, sc, d - 1), ["=","<>","<","<=",">",">="][r.below(6) as usize], expr(r, sc, d - 1)),
+            8 => format!("({} {} {})", expr(r, sc, d - 1), ["AND","OR"][r.below(2) as usize], expr(r, sc, d - 1)),
+            9 => format!("({} IS {}NULL)", expr(r, sc, d - 1), ["", "NOT "][r.below(2) as usize]),
+            10 => format!("CASE WHEN {} THEN {} ELSE {} END", expr(r, sc, d - 1), expr(r, sc, d - 1), expr(r, sc, d - 1)),
+            11 => format!("CAST({} AS {})", expr(r, sc, d - 1), ["BIGINT","DOUBLE","VARCHAR","INTEGER","DATE","BOOLEAN"][r.below(6) as usize]),
+            12 => format!("COALESCE({}, {})", expr(r, sc, d - 1), expr(r, sc, d - 1)),
+            13 => { let f = ["ABS","UPPER","LOWER","LENGTH","ROUND","FLOOR","CEIL","YEAR","MONTH","SQRT","TRIM","REVERSE","SIGN","LN","EXP","TO_HEX","MD5","TYPEOF","IS_NAN","DAY_OF_WEEK","BIT_COUNT","CHR","ASCII","SOUNDEX","LAST_DAY_OF_MONTH","TO_UNIXTIME","NOW","PI","RANDOM","UUID","CURRENT_DATE"][r.below(31) as usize];
+                    if ["NOW","PI","RANDOM","UUID","CURRENT_DATE"].contains(&f) { format!("{}()", f) } else { format!("{}({})", f, expr(r, sc, d - 1)) } }
+            14 => { let f = ["CONCAT","POWER","MOD","NULLIF","GREATEST","LEAST","STARTS_WITH","STRPOS","LEFT","REPEAT","DATE_DIFF","ATAN2","SPLIT_PART","LPAD"][r.below(14) as usize];
+                    match f { "REPEAT" | "LEFT" => format!("{}({}, 2)", f, expr(r, sc, d - 1)), "DATE_DIFF" => format!("DATE_DIFF('day', {}, {})", expr(r, sc, d - 1), expr(r, sc, d - 1)),
+                              "SPLIT_PART" => format!("SPLIT_PART({}, 'a', 1)", expr(r, sc, d - 1)), "LPAD" => format!("LPAD({}, 5, 'x')", expr(r, sc, d - 1)),
+                              _ => format!("{}({}, {})", f, expr(r, sc, d - 1), expr(r, sc, d - 1)) } }
+            _ => format!("({} {}LIKE 'a%')", expr(r, sc, d - 1), ["", "NOT "][r.below(2) as usize]),
+        }
+    }
+    let small: Vec<&'static Tab> = STD_TABS.iter().filter(|t| t.name != "big").collect();
+    let nt = 1 + r.below(2) as usize;
+    let sc: Vec<(&'static Tab, String)> = (0..nt).map(|j| (small[r.below(small.len() as u64) as usize], format!("x{}", j))).collect();
+    let mut from = format!("{} AS x0", sc[0].0.name);
+    if nt == 2 {
+        let jt = ["JOIN","LEFT JOIN","RIGHT JOIN","FULL JOIN","CROSS JOIN"][r.below(5) as usize];
+        from += &format!(" {} {} AS x1", jt, sc[1].0.name);
+        if jt != "CROSS JOIN" { from += &format!(" ON {} = {}", col(r, sc[0].0, "x0"), col(r, sc[1].0, "x1")); }
+    }
+    let n = 1 + r.below(4);
+    let shape = r.below(10);
+    let alias = |j: u64, r: &mut Rng| if r.chance(1, 2) { format!(" AS c{}", j) } else { String::new() };
+    let mut s = match shape {
+        0 | 1 => { // aggregate
+            let k = col(r, sc[0].0, "x0");
+            let aggs: Vec<String> = (0..n).map(|j| { let a = ["COUNT(*)","COUNT","SUM","AVG","MIN","MAX","COUNT(DISTINCT","STDDEV","BOOL_OR","ANY_VALUE"][r.below(10) as usize];
+                let e = expr(r, &sc, 1); let al = alias(j, r);
+                if a == "COUNT(*)" { format!("COUNT(*){}", al) } else if a == "COUNT(DISTINCT" { format!("COUNT(DISTINCT {}){}", e, al) } else { format!("{}({}){}", a, e, al) } }).collect();
+            let g = ["GROUP BY {k}","GROUP BY ROLLUP({k})","GROUP BY {k}, 1",""][r.below(4) as usize];
+            if g.is_empty() { format!("SELECT {} FROM {}", aggs.join(", "), from) } else { format!("SELECT {}, {} FROM {} {}", k, aggs.join(", "), from, g.replace("{k}", &k).replace(", 1", "")) }
+        }
+        2 => { // window
+            let items: Vec<String> = (0..n).map(|j| { let f = ["ROW_NUMBER()","RANK()","SUM({e})","COUNT(*)","LAG({e})","FIRST_VALUE({e})","AVG({e})","NTILE(3)","DENSE_RANK()","MAX({e})"][r.below(10) as usize].replace("{e}", &expr(r, &sc, 0));
+                format!("{} OVER (PARTITION BY {} ORDER BY {}){}", f, col(r, sc[0].0, "x0"), col(r, sc[0].0, "x0"), alias(j, r)) }).collect();
+            format!("SELECT {}, {} FROM {}", col(r, sc[0].0, "x0"), items.join(", "), from)
+        }
+        3 => format!("SELECT * FROM {}", from),
+        4 => format!("SELECT x0.*, {} FROM {}", expr(r, &sc, 2), from),
+        5 => { let e1: Vec<String> = (0..n).map(|_| expr(r, &sc, 1)).collect(); let op = ["UNION ALL","UNION","INTERSECT","EXCEPT"][r.below(4) as usize];
+               format!("SELECT {} FROM {} {} SELECT {} FROM {}", e1.join(", "), from, op, e1.join(", "), from) }
+        6 => format!("SELECT (SELECT MAX(k) FROM t2), {} FROM {} WHERE {} IN (SELECT k FROM t2)", expr(r, &sc, 1), from, col(r, sc[0].0, "x0")),
+        _ => { let items: Vec<String> = (0..n).map(|j| { let e = expr(r, &sc, 2); format!("{}{}", e, alias(j, r)) }).collect();
+               format!("SELECT {}{} FROM {}", if r.chance(1, 5) { "DISTINCT " } else { "" }, items.join(", "), from) }
+    };
+    if shape >= 3 && shape != 5 && r.chance(1, 2) { s += &format!(" WHERE {}", expr(r, &sc, 2)); }
+    if r.chance(1, 3) { s += " ORDER BY 1"; if r.chance(1, 2) { s += " DESC NULLS FIRST"; } }
+    if r.chance(1, 3) { s += &format!(" LIMIT {}", [0u64, 1, 5, 100][r.below(4) as usize]); }
+    s
+}
+
 fn tabs_of(setup: &str) -> &'static [Tab] { if setup.starts_with("spill") || setup == "nolimit" { SPILL_TABS } else { STD_TABS } }
 
-fn gen_grammar(r: &mut Rng, setup: &str, wild: u64) -> String {
+pub fn gen_grammar(r: &mut Rng, setup: &str, wild: u64) -> String {
     let d = 1 + r.below(3) as u32;
     let mut g = G { r, tabs: tabs_of(setup), scope: vec![], wild, multi: false };
     g.query(d, true)
@@ -823,7 +905,8 @@ fn gen_case(r: &mut Rng, n: usize) -> Value {
     let (setup, stream, sql) = match n % 20 {
         0..=6 => ("std", "grammar", gen_grammar(r, "std", 4)),
         7 | 8 => ("std", "wild", gen_grammar(r, "std", 30)),
-        9..=11 => { let base = if r.chance(1, 3) { gen_stmt(r) } else { gen_grammar(r, "std", 4) }; ("std", "mutated", mutate(r, &base)) }
+        9 => ("std", "tame", gen_tame(r)),
+        10 | 11 => { let base = match r.below(3) { 0 => gen_stmt(r), 1 => gen_tame(r), _ => gen_grammar(r, "std", 4) }; ("std", "mutated", mutate(r, &base)) }
         12 | 13 => ("std", "stmt", gen_stmt(r)),
         14 => ("std", "bytes", gen_bytes(r)),
         15 | 16 => ("std", "deep", gen_deep(r)),
